@@ -67,7 +67,7 @@ InsArgs == IF Kind = "p"
                           [inIf |-> 2, usage |-> <<1, 2, 8>>]}
 \* deletions: (pool element, number of hex digits); 64 = the full id
 DelArgs == IF Alphabet = "small" THEN {<<1, 64>>, <<1, 2>>, <<3, 64>>}
-           ELSE {<<1, 64>>, <<1, 2>>, <<1, 1>>, <<3, 64>>, <<6, 64>>}
+           ELSE {<<1, 64>>, <<1, 2>>, <<1, 1>>, <<3, 64>>}
 Nows == IF Alphabet = "small" THEN {U, 2 * U + 1} ELSE {U, U + 1, 2 * U + 1}
 NQArgs == {<<11, 12, 1>>, <<11, 12, 2>>}
 
